@@ -3,7 +3,7 @@ import re
 SPEC = dict(
     harness="verif_c33",
     model="C33",
-    rule="one case = one HISTORY (4-17 calls, quick 5 000 / thorough 100 000 histories) of machine / pages / poke / invoke / peek / expunge against ONE "
+    rule="one case = one HISTORY (4-17 calls, quick 4 000 / thorough 100 000 histories) of machine / pages / poke / invoke / peek / expunge against ONE "
          "refine context, every call made through the real PVM.RefineOmegas entry with an OmegaInput as Host.HostCall builds it and HostCallArgs as "
          "RefineInvoke + Psi_M build them (IntegratedPVMMap, Program = the outer program). Programs: assembled arithmetic / load-store / loop / jump-table / "
          "ecalli / halt / empty programs (entry at any instruction start, past the end, >= 2^32) and blobs that must be refused (random bytes, truncated, "
@@ -62,7 +62,7 @@ MANIFEST = dict(
          "single-step engine, whole state compared after every call, Go panics are violations.",
     note="Theorems are about Model/InnerVm.v (+ Model/Pvm*.v); the Go code is tied by differential execution on generated histories only. On the unchanged tree "
          "the calls are broadly defective (nil page map crash in pages, pages modes/limits, peek z=0, poke OOB panics, invoke runs the raw blob and writes zeros "
-         "back): eight proposed patches C33-01..08 (host_call_refine.go), stacked on C02-01..06 (single-step engine) repair them; the check passes on that tree. "
+         "back): eight proposed patches C33-01..08 (host_call_refine.go only; they rely on the C02-01..06 single-step-engine and C03-01 deblob repairs, already applied) repair them; the check passes on that tree. "
          "Open finding C33-pc-truncated (uint32 counter). Outside the model: resource use of huge legal `pages` requests (a million pages = 4 GiB; not generated), "
          "entry counters that are not instruction starts, sbrk in inner programs beyond the empty-heap case, the general gas/OOG discipline of host calls (C07), "
          "per-opcode conformance of the single-step engine beyond the generated programs (C02).",
